@@ -85,6 +85,8 @@ def reader_shape(ctx):
 
 
 def run(ctx):
+    import os
+    os.environ["GOGC"] = "1"      # stress the Go runtime: collections (and finalizers) inside every lock section
     framework.check_facts(ctx, ctx.facts, ["with_lock", "lock_sites", "writer_calls"])
     reader_shape(ctx)
     r = gen.Rng(ctx.seed * 1000003 + 13)
